@@ -4,10 +4,12 @@
 (*                                                                         *)
 (* trace.ndjson holds one event per line, recorded by the harness from the *)
 (* REAL saml.Duration / saml.RelaxedTime on seeded random values:          *)
-(*   {"k":"dur",  "d":{neg,h,m,s,f}, "text":[chars], "ok":bool,            *)
-(*    "back":{neg,h,m,s,f}, "dev":""}                                      *)
-(*   {"k":"inst", "t":{y,mo,d,h,mi,s,ms,sub,off}, "text":[chars],          *)
-(*    "ok":bool, "back":{y,mo,d,h,mi,s,ms}, "dev":""}                      *)
+(*   {"k":"dur",  "how":mode, "d":{neg,h,m,s,f}, "text":[chars],           *)
+(*    "ok":bool, "back":{neg,h,m,s,f}, "dev":""}                           *)
+(*   {"k":"inst", "how":mode, "t":{y,mo,d,h,mi,s,ms,sub,off},              *)
+(*    "text":[chars], "ok":bool, "back":{y,mo,d,h,mi,s,ms}, "dev":""}      *)
+(* "how" is the hand-over mode (direct call, XML attribute / element,      *)
+(* JSON string; by value, by pointer, in a slice, a map, an interface).    *)
 (* Every event is validated by evaluating the specification's own          *)
 (* DMarshal / DUnmarshal / IMarshal / IUnmarshal on the logged value and    *)
 (* text.  Events the harness has already reported as violations carry a    *)
@@ -19,14 +21,20 @@ VARIABLE l
 
 TraceLog == ndJsonDeserialize("trace.ndjson")
 
+\* every event names the hand-over mode it went through (spec TextHows); "text" is the text the carrier held
+HowNamed(n) == CHOOSE h \in TextHows : h.n = n
+
 DurEventOk(e) ==
-  LET r == DUnmarshal(e.text) IN
-  /\ e.text = DMarshal(e.d)                       \* the real text is the text the spec writes
-  /\ r.ok = e.ok                                  \* the real parser's verdict on it
+  LET h == HowNamed(e.how)
+      r == DUnmarshalVia(h.car, e.text) IN
+  /\ e.text = DurTextVia(h, e.d)                 \* the real text is the text the spec writes in this mode
+  /\ r.ok = e.ok                                  \* the real parser's verdict on it (through the same carrier)
   /\ e.ok => ~r.ovf /\ r.d = e.back /\ r.d = e.d  \* its value, and the round trip
 
 InstEventOk(e) ==
-  LET r == IUnmarshal(e.text) IN
+  LET h == HowNamed(e.how)
+      r == IUnmarshal(e.text) IN
+  /\ Found("RelaxedTime", h)
   /\ \E u \in Want(e.t) : e.text = IFormat(u)    \* the rounded UTC instant, formatted (an exact half may go either way)
   /\ r.ok = e.ok
   /\ e.ok => r.t = e.back /\ r.t \in Want(e.t)
@@ -37,7 +45,7 @@ EventOk(e) == \/ e.dev # ""
 
 TInit == /\ TLCSet(1, 0)
          /\ l = 1
-         /\ kind = "trace" /\ vec = <<>> /\ pc = "trace" /\ text = <<>> /\ back = <<>>
+         /\ kind = "trace" /\ vec = <<>> /\ how = CallHow /\ pc = "trace" /\ text = <<>> /\ back = <<>>
 
 TNext == /\ l <= Len(TraceLog)
          /\ EventOk(TraceLog[l])
